@@ -8,14 +8,19 @@ CLASSIFY_PURE = [
     "spowtd.classify:check_for_uniform_time_steps",
     "spowtd.classify:get_candidate_match_intervals",
     "spowtd.classify:match_storms",
+    "spowtd.classify:classify_interstorms",
+    "spowtd.classify:match_all_storms",
+    "spowtd.classify:populate_zeta_interval",
+    "spowtd.classify:classify_intervals",
     "lemma:run_counter_basic",
     "lemma:run_counter_separation",
 ]
 
 _PURE_NOTE = ("Assumed: numpy primitives as specified in pyvc/libspec.py; floats as reals; int64 does not overflow; "
-              "termination of the deferred-acceptance while loop is not proved. The SQL-executing functions "
-              "(classify_interstorms, match_all_storms, classify_intervals) and disambiguate_matching are covered by the "
-              "bounded stand-in named in the evidence (labelled bounded, not counted in `discharged`).")
+              "termination of the deferred-acceptance while loop is not proved. Every SQL statement enters through an assumed "
+              "contract (contracts/sql.py, keyed by the statement text read from /repo) and the Loaded(db) facts stated there; "
+              "disambiguate_matching is covered by its native contract check and the table-level bounded stand-in "
+              "(labelled bounded, not counted in `discharged`).")
 
 
 def _tables(pid):
@@ -47,7 +52,8 @@ PROPS = {
     },
     "C03": {
         "targets": ["spowtd.classify:get_true_interval_masks", "spowtd.classify:get_candidate_match_intervals",
-                    "spowtd.classify:match_storms", "lemma:run_counter_basic", "lemma:run_counter_separation"],
+                    "spowtd.classify:match_storms", "spowtd.classify:match_all_storms",
+                    "lemma:run_counter_basic", "lemma:run_counter_separation"],
         "witness_from": {"spowtd.classify:get_candidate_match_intervals": "spowtd.classify:match_storms"},
         "bounded": [_tables("C03")],
         "level_text": "Unbounded proof that the run detector returns exactly the maximal True runs and that every pair returned "
@@ -57,7 +63,7 @@ PROPS = {
     },
     "C04": {
         "targets": ["spowtd.classify:get_mystery_jump_mask", "spowtd.classify:get_true_interval_masks",
-                    "lemma:run_counter_basic", "lemma:run_counter_separation"],
+                    "spowtd.classify:classify_interstorms", "lemma:run_counter_basic", "lemma:run_counter_separation"],
         "bounded": [_tables("C04")],
         "level_text": "Unbounded proof that the mystery-jump machine computes exactly the property's predicate (some rainy step "
                       "earlier and no jump at a rain-free sample since) and that runs are maximal; flags and interstorm rows at "
@@ -171,5 +177,57 @@ PROPS = {
                       "get_series_time_offsets are a bounded stand-in.",
         "level_note": "Ties between equally large groups make the choice depend on dict order; the stand-in requires a unique largest group "
                       "for the 'same group after permutation' clause.",
+    },
+    "C09": {
+        "targets": ["spowtd.rise:compute_rise_offsets", "spowtd.rise:compute_rise_offsets#reference"],
+        "bounded": [{"run": "bounded.curves_checks:run_C09",
+                     "what": "native sweep through the real rise / recession steps: grid steps {1, 0.1, 0.3, 2.5, ...} x multiples of the "
+                             "step across the curve (accepted, curve zero there), off-grid references (refused), no reference (highest "
+                             "level is the origin) - this is where floating-point rounding of reference / step is exercised"}],
+        "level_text": "Unbounded proof (floats as reals) on compute_rise_offsets: without a reference the origin index is the largest level "
+                      "of the fit's mapping; with one, a returning run has the reference within tolerance of (origin index x step) and the "
+                      "refusal branch is only reached for non-multiples; the stored offsets are the fitted offsets minus the mean (offset + "
+                      "crossing) of the origin level. The floating-point side (every decimal multiple accepted) is a bounded native sweep.",
+        "level_note": "get_series_time_offsets enters through an assumed contract (validated bounded under C05/C08/C13). recession.py's "
+                      "compute_offsets has the same structure; in this revision it is covered by the bounded sweep. 'Zero at the reference' "
+                      "follows from 'offsets minus the mean over that level' by the algebra mean(x - mean(x)) = 0 (not an SMT obligation).",
+    },
+    "C13": {
+        "targets": ["spowtd.rise:compute_rise_offsets", "spowtd.zeta_grid:populate_zeta_grid", "spowtd.regrid:regrid"],
+        "bounded": [{"run": "bounded.curves_checks:run_C13",
+                     "what": "bounded stand-in at table level (real workflow on planted datasets): every rising / recession interval row is a "
+                             "matched rise / an interstorm interval, its crossings equal an independent computation from its own samples, "
+                             "all levels are grid levels, the grid covers the observed range"}],
+        "level_text": "Unbounded proof that compute_rise_offsets hands the fit exactly the segments (0, total depth of its storm) -> (initial, "
+                      "final level) of the matched rises of the join, that each rising_interval row is the start epoch of the rise chosen by "
+                      "the fit and each rising_interval_zeta row is (that start epoch, level, crossing) for an entry of the fit's mapping; "
+                      "that populate_zeta_grid inserts floor(min/step) .. ceil(max/step)-1 and that the grid cells cover [min, max]; and "
+                      "(C12) that regrid's crossings are exact. Recession side and the crossing means: bounded stand-in.",
+        "level_note": "SQL statements and get_series_time_offsets enter through assumed contracts (validated bounded). Defensive checks of "
+                      "database consistency inside the step may abort it (tolerated: partial correctness; C20 makes the abort harmless).",
+    },
+    "C06": {
+        "targets": ["spowtd.regrid:regrid", "spowtd.rise:compute_rise_offsets"],
+        "lean_thorough": ["LeastSquares.lean"],
+        "bounded": [{"run": "bounded.curves_checks:run_C06",
+                     "what": "planted-truth datasets (recession curve piecewise linear on the sampling lattice, constant specific yield) "
+                             "through the real CLI from text files to master-curve tables: both master curves equal the truth up to a "
+                             "constant, aligned pieces coincide at every shared level"}],
+        "level_text": "Lemma over contracts: Lean theorem c06_perfect_alignment (lean/LeastSquares.lean) - if offsets with zero objective exist "
+                      "and x minimises (C05), all shifted crossings at a level coincide - combined with the proved contracts of regrid (exact "
+                      "crossings of the interpolant) and compute_rise_offsets (series = storage segments). That thresholds consistent with the "
+                      "truth make classification find the planted intervals, and the CLI wiring, are exercised by the bounded stand-in.",
+        "level_note": "The Lean file is compiled in the thorough tier here (it is compiled in the quick tier of C05).",
+    },
+    "C07": {
+        "targets": ["spowtd.classify:classify_interstorms", "spowtd.classify:match_all_storms"],
+        "bounded": [{"run": "bounded.curves_checks:run_C07",
+                     "what": "bounded stand-in: the whole workflow on datasets shifted by multiples of the time step (30- and 20-minute "
+                             "grids, with an increment exactly at threshold x step) and declared in another fixed-offset zone: flags, "
+                             "intervals, matching and both master curves must be unchanged"}],
+        "level_text": "In this revision the origin-independence itself is decided by the bounded stand-in; the proved contracts of "
+                      "classify_interstorms / match_all_storms state the flags and intervals as functions of epoch differences and "
+                      "levels only (floats as reals), which is the mathematical half of the claim.",
+        "level_note": "The rounding half (relational proof with uninterpreted rounding functions, DESIGN 4.3) is not built yet.",
     },
 }
